@@ -59,7 +59,7 @@ theorem total_pos (n : Nat) (f : Nat → Nat) (h : 0 < total n f) : ∃ j, j < n
 /-- a sender that holds a notification (or is on its first attempt): it is not in the wait set and will evaluate the
 predicate, or pass the notification on, before it sleeps -/
 def holder (p : SPc) (b : Bool) : Nat :=
-  if b = false ∧ (p = .rm ∨ p = .try1 ∨ p = .try2 ∨ p = .cancel ∨ p = .pending) then 1 else 0
+  if b = false ∧ (p = .rm ∨ p = .try1 ∨ p = .try2 ∨ p = .cancel ∨ p = .pending ∨ p = .cancelErr) then 1 else 0
 
 /-- a sender that has pushed and not yet notified the receiver -/
 def pusher (p : SPc) : Nat := if p = .cancel ∨ p = .notifyRecv then 1 else 0
@@ -67,6 +67,8 @@ def pusher (p : SPc) : Nat := if p = .cancel ∨ p = .notifyRecv then 1 else 0
 def holders (s : St) : Nat := total s.n (fun j => holder (s.spc j) (s.inset j))
 def pushers (s : St) : Nat := total s.n (fun j => pusher (s.spc j))
 def rtoken (s : St) : Nat := if s.rpc = .notify then 1 else 0
+/-- the closing thread is about to wake every sender: worth as many notifications as there are slots -/
+def ctoken (s : St) : Nat := if s.cpc = true then s.cap else 0
 /-- the receiver holds a popped message whose slot is not yet released -/
 def rborrow (s : St) : Nat := if s.rpc = .release ∨ s.rpc = .unreg then 1 else 0
 
@@ -76,13 +78,18 @@ structure Inv (s : St) : Prop where
   notInset : ∀ i, i < s.n → (s.spc i = .idle ∨ s.spc i = .try1 ∨ s.spc i = .ins ∨ s.spc i = .notifyRecv) →
     s.inset i = false
   /-- while a sender sleeps, every free slot is matched by a notification in flight -/
-  senders : (∃ i, Sleeping s i) → s.cap ≤ s.occ + rtoken s + holders s
+  senders : (∃ i, Sleeping s i) → s.cap ≤ s.occ + rtoken s + ctoken s + holders s
   /-- while the receiver sleeps, every message is matched by a sender that is about to notify it -/
   receiver : RSleeping s → s.msgs ≤ pushers s
+  cpcClosed : s.cpc = true → s.closed = true
+  /-- once the closing thread has notified everybody, no sender sleeps any more -/
+  noSleepAfterClose : s.closed = true → s.cpc = false → ∀ i, ¬ Sleeping s i
 
 theorem inv_init (n cap : Nat) (a : Bool) : Inv (St.init n cap a) := by
-  refine ⟨Nat.zero_le _, by simp [St.init, rborrow], fun _ _ _ => rfl, ?_, ?_⟩
+  refine ⟨Nat.zero_le _, by simp [St.init, rborrow], fun _ _ _ => rfl, ?_, ?_, ?_, ?_⟩
   · rintro ⟨i, _, h, _⟩; simp [St.init] at h
   · rintro ⟨h, _⟩; simp [St.init] at h
+  · intro h; simp [St.init] at h
+  · intro h; simp [St.init] at h
 
 end NexoVerif.Chan
